@@ -42,12 +42,21 @@ impl GenCfg {
     /// scale instead of small scope: many distinct names in one element / many occurrences / deep nesting / long names
     pub fn scaled(r: &mut Rng) -> GenCfg {
         let mut g = GenCfg::plain();
-        match r.below(4) {
+        match r.below(5) {
             0 => {
                 g.names = (0..18).map(|i| format!("k{}", (b'a' + i as u8) as char)).collect();
                 g.attrs = (0..14).map(|i| format!("at{}", (b'a' + i as u8) as char)).collect();
                 g.max_kids = 18;
                 g.max_depth = 2;
+            }
+            4 => {
+                // more distinct children / attributes than a machine word has bits (9, 17, 33, 65, 130: one past u8 .. u128)
+                let w = [9usize, 17, 33, 65, 130][r.below(5)];
+                g.names = (0..w + 6).map(|i| format!("c{:03}", i)).collect();
+                g.attrs = (0..(w / 2).min(40)).map(|i| format!("a{:03}", i)).collect();
+                g.max_kids = w + 12;
+                g.max_depth = 2;
+                g.text_pct = 10;
             }
             1 => {
                 g.names = vec!["a".into(), "b".into()];
